@@ -3,6 +3,7 @@ package transport
 import (
 	"bufio"
 	"context"
+	"errors"
 	"fmt"
 	"io"
 
@@ -392,8 +393,14 @@ func updateReferences(st storage.Storer, req *packp.UpdateRequests, cmdStatus ma
 				continue
 			}
 
+			// The check above gives the usual answer early; what decides is
+			// the storage's own compare-and-swap, so that of two pushes made
+			// against the same old value only one is accepted.
 			ref := plumbing.NewHashReference(cmd.Name, cmd.New)
-			err := st.SetReference(ref)
+			err := st.CheckAndSetReference(ref, plumbing.NewHashReference(cmd.Name, cmd.Old))
+			if errors.Is(err, storage.ErrReferenceHasChanged) {
+				err = ErrUpdateReference
+			}
 			setStatus(cmdStatus, firstErr, cmd.Name, err)
 		}
 	}
